@@ -287,6 +287,15 @@ def run(ctx):
                 guarded = any(x[0] == "cmp" and x[1] == "Eq" and
                               (("cell:TxInfo.state" in x[2] and "const:TxState::Active" in x[3]) or
                                ("cell:TxInfo.state" in x[3] and "const:TxState::Active" in x[2])) for x in facts)
+                if not guarded and f.vis != "pub":
+                    # a private helper: the test may be made by its callers, before each call
+                    sites = [(g, bi) for g in P.fns.values() for bi, t in g.calls() if callee_name(t) == f.id]
+                    def active_at(g, bi):
+                        gx = FlowCx(P, g)
+                        return any(x[0] == "cmp" and x[1] == "Eq" and
+                                   (("cell:TxInfo.state" in x[2] and "const:TxState::Active" in x[3]) or
+                                    ("cell:TxInfo.state" in x[3] and "const:TxState::Active" in x[2])) for x in gx.facts_at(bi))
+                    guarded = bool(sites) and all(active_at(g, bi) for g, bi in sites)
                 # value assigned
                 val = None
                 for st in f.blocks[a.block]["s"]:
